@@ -54,6 +54,8 @@ pub struct Store<'p> {
     /// description of every step taken (filled only when `trace` is on; used by the sweep
     /// builder and by replay output)
     pub trace: Option<Vec<(WStep, u8)>>,
+    /// the code under test kept calling although every step failed: it does not terminate
+    pub runaway: bool,
 }
 
 impl<'p> Store<'p> {
@@ -69,6 +71,7 @@ impl<'p> Store<'p> {
             fired: Vec::new(),
             log: Fnv::default(),
             trace: None,
+            runaway: false,
         }
     }
 
@@ -92,6 +95,10 @@ impl<'p> Store<'p> {
             t.push((what, depth));
         }
         if k >= STEP_CAP {
+            if k >= STEP_CAP * 8 {
+                self.runaway = true;
+                panic!("write side does not terminate");
+            }
             return Err(SimError::Medium("write step cap exceeded"));
         }
         if self.permanent {
